@@ -367,6 +367,14 @@ class PreParser:
                     # source code side by side to visualize the whitespace)
                     toks = [TokenInfo(NAME, new_keyword, start, end, line)]
 
+            # also record the adjustment at the *end* of the token: the end
+            # position of an AST node is the end of its last token, which is
+            # the start of the next token only if no whitespace follows
+            # (`log E(x=1.5 + 2.5)`: the node `1.5` ends before a space)
+            end_lineno, end_col = token.end
+            end_adj = _col_adjustments[end_lineno]
+            adjustments.setdefault((end_lineno, end_col - end_adj), end_adj)
+
             if (typ, string) == (OP, ";"):
                 raise SyntaxException("Semi-colon statements not allowed", code, start[0], start[1])
 
